@@ -385,7 +385,7 @@ PINNED = [
 def run(ck):
     quick = ck.tier == "quick"
     n = core.NPROC
-    builds = (4000 if quick else 100000) // n
+    builds = (12000 if quick else 100000) // n
     payloads = [{"id": f"{ck.seed}_{i}", "seed": f"C11:{ck.seed}:{i}", "builds": builds, "pinned": PINNED if i == 0 else []} for i in range(n)]
     for r in core.pmap("vf.props.c11:work", payloads, timeout=3400):
         ck.merge(r)
